@@ -61,3 +61,31 @@ Example h12_unreachable_vertex_is_missed :
   | Err _ => False
   end.
 Proof. vm_compute. split; [discriminate | reflexivity]. Qed.
+
+(** The second shape of the same defect (known finding C12/2): after a purge the entry point keeps its
+    outgoing edges but has no incoming bottom-layer edge left.  [h3] is the graph the implementation -- and
+    the model, in step with it -- is in after the first 102 operations of corpus/C12_entry_point_without_
+    incoming_edges.case.json (M = 2, dimension 8, Euclidean): three live vertices, all reachable from the
+    entry point 10 through the bottom layer, ef = 50, no k limit -- and the search returns two of them. *)
+Definition cfg8 : hcfg := {| hc_dim := 8; hc_metric := L2; hc_M := 2; hc_efc := 200; hc_efs := 50 |}.
+Definition h3 : hstate :=
+  {| hs_nodes :=
+       [ {| n_id := 10; n_level := 3; n_vec := [1067937366; 1043472903; 1068523528; 1066268603; 3225872593; 3214539699; 1052873091; 1047463734]; n_edges := [[15]; [15; 12]; []; []] |};
+         {| n_id := 12; n_level := 1; n_vec := [1071457816; 1051680441; 3185028494; 3215313745; 3200597192; 1045428439; 3219950433; 1064587461]; n_edges := [[15]; [15; 10]] |};
+         {| n_id := 15; n_level := 1; n_vec := [3183782662; 1053253743; 1056883656; 1037712653; 1063181784; 1074331618; 1062243791; 3206737225]; n_edges := [[12]; [12]] |} ];
+     hs_deleted := []; hs_entry := 10; hs_maxlevel := 3 |}.
+Definition q3 : vec := [3209533425; 3190595244; 1037504209; 1059409344; 3207417919; 3207972837; 3161777641; 3216125597].
+Definition rq_all : request :=
+  {| r_queries := []; r_nodes := []; r_docids := []; r_k := -1; r_thr := 0; r_agg := AggSum; r_cutoff := -1; r_nprobes := 0 |}.
+
+Theorem hnsw_exactness_after_purge_refuted :
+  length (hs_nodes h3) = 3%nat /\ hs_deleted h3 = [] /\
+  forallb (fun n => memz (n_id n) (reachable0 h3)) (hs_nodes h3) = true /\
+  match hsearch_single cfg8 h3 rq_all 50 q3 with
+  | Ok o => map fst (so_full o) = [15; 12]
+  | Err _ => False
+  end.
+Proof.
+  split; [vm_compute; reflexivity|]. split; [vm_compute; reflexivity|]. split; [vm_compute; reflexivity|].
+  vm_compute. reflexivity.
+Qed.
